@@ -23,7 +23,8 @@ RULE = ("driver A: all labelled graphs <= 4 vertices (quick) / 5 (thorough) and 
 ASSUMPTIONS = ["z3 decides the posted program correctly (SAT re-validated by M-SOLVE)",
                "primitive route: stand-in semantics of graph-division = blocks of the border cut, no redundant border, sizes met"]
 REQUIRED = ["vg.cases", "vg.want.valid", "vg.want.invalid", "vg.size.none", "vg.size.const", "vg.size.var", "vg.size.list", "vg.size.array",
-            "vg.size.nested", "vgb.cases", "vgb.want.valid", "vgb.want.invalid", "vgb.primitive", "vgb.frame", "vg.grid", "mwire.exchanges", "vg.big_boards", "vg.big_boards_borders", "vg.big_block_ge12"]
+            "vg.size.nested", "vgb.cases", "vgb.want.valid", "vgb.want.invalid", "vgb.primitive", "vgb.frame", "vg.grid", "mwire.exchanges", "vg.big_boards", "vg.big_boards_borders", "vg.big_block_ge12",
+            "vg.line_graph_objects", "vgb.frame_arrays.horizontal", "vgb.frame_arrays.vertical", "vgb.frame_arrays.both"]
 
 
 def plan(tier):
@@ -91,7 +92,7 @@ def sizes_feasible(spec, n, block_of):
     return True
 
 
-def driver_a(ctx, n, edges, part, kind, spec, grid, nested):
+def driver_a(ctx, n, edges, part, kind, spec, grid, nested, gobj=None):
     block_of = [None] * n
     for b, vs in enumerate(part):
         for v in vs:
@@ -99,7 +100,7 @@ def driver_a(ctx, n, edges, part, kind, spec, grid, nested):
     s = cspuz.Solver()
     desc = {"driver": "A", "n": n, "edges": [list(e) for e in edges], "grid": grid, "partition": part, "size": spec, "size_kind": kind}
     ctx.current_case = {"tag": "vg", "desc": desc}
-    if grid is None:
+    if grid is None and gobj is None:
         edges = D.scramble(ctx.rng, edges)
         desc["edges"] = [list(e) for e in edges]
     try:
@@ -116,7 +117,7 @@ def driver_a(ctx, n, edges, part, kind, spec, grid, nested):
                 ids = graph.division_connected_variable_groups(s, shape=(h, w), group_size=gs)
             idl = [ids[y, x] for y in range(h) for x in range(w)]
         else:
-            g = D.mk_graph(n, edges)
+            g = gobj if gobj is not None else D.mk_graph(n, edges)
             if kind == "array" and all(not (x is None or isinstance(x, int)) for x in gs):
                 gs = IntArray1D(gs)
             ids = graph.division_connected_variable_groups(s, graph=g, group_size=gs)
@@ -142,12 +143,12 @@ def driver_a(ctx, n, edges, part, kind, spec, grid, nested):
                       f"variable_groups (size {kind}): realisable={res}, definition={want}", ctx.current_case)
 
 
-def driver_b(ctx, n, edges, border, kind, spec, prim, be, frame=None):
+def driver_b(ctx, n, edges, border, kind, spec, prim, be, frame=None, gobj=None):
     s = cspuz.Solver()
     desc = {"driver": "B", "n": n, "edges": [list(e) for e in edges], "frame": frame, "border": list(map(int, border)), "size": spec,
             "size_kind": kind, "primitive": prim}
     ctx.current_case = {"tag": "vgb", "desc": desc}
-    if frame is None and len(edges) > 1:
+    if frame is None and len(edges) > 1 and gobj is None:
         perm = list(range(len(edges)))
         ctx.rng.shuffle(perm)
         edges = [((edges[k][1], edges[k][0]) if ctx.rng.random() < 0.5 else tuple(edges[k])) for k in perm]
@@ -163,19 +164,34 @@ def driver_b(ctx, n, edges, border, kind, spec, prim, be, frame=None):
             gs = mk_size(s, spec)
         if frame is not None:
             h, w = frame
-            fr = BoolInnerGridFrame(s, h, w)
-            # lattice: vertical border between (y,x),(y,x+1) = fr.vertical[y, x]; horizontal between (y,x),(y+1,x) = fr.horizontal[y, x]
+            # the frame's arrays may be the frame's own or the caller's (one of them, or both); the pattern is imposed on the arrays
+            # the CALLER holds, which is all a caller who passed them can do
+            how = ctx.rng.choice(["own", "own", "horizontal", "vertical", "both"])
+            hor = s.bool_array((h - 1, w)) if how in ("horizontal", "both") and h > 1 else None
+            ver = s.bool_array((h, w - 1)) if how in ("vertical", "both") and w > 1 else None
+            kw = {}
+            if hor is not None:
+                kw["horizontal"] = hor
+            if ver is not None:
+                kw["vertical"] = ver
+            fr = BoolInnerGridFrame(s, h, w, **kw)
+            desc["frame_arrays"] = how
+            ctx.count("vgb.frame_arrays." + how)
+            # lattice: vertical border between (y,x),(y,x+1) = vertical[y, x]; horizontal between (y,x),(y+1,x) = horizontal[y, x]
             bv = []
             for (u, v) in edges:
                 y, x = divmod(u, w)
                 y2, x2 = divmod(v, w)
-                bv.append(fr.vertical[y, x] if y2 == y else fr.horizontal[y, x])
+                if y2 == y:
+                    bv.append((ver if ver is not None else fr.vertical)[y, x])
+                else:
+                    bv.append((hor if hor is not None else fr.horizontal)[y, x])
             if gs is None:
                 gs = [s.int_var(1, n) for _ in range(n)]
             gsa = IntArray2D([x if not (x is None or isinstance(x, int)) else _const_var(s, x, n) for x in gs], (h, w))
             graph.division_connected_variable_groups_with_borders(s, group_size=gsa, is_border=fr, use_graph_primitive=prim)
         else:
-            g = D.mk_graph(n, edges)
+            g = gobj if gobj is not None else D.mk_graph(n, edges)
             bv = [s.bool_var() for _ in edges]
             isb = BoolArray1D(bv) if sum(border) % 2 else bv
             graph.division_connected_variable_groups_with_borders(s, group_size=gs, is_border=isb, graph=g, use_graph_primitive=prim)
@@ -297,6 +313,36 @@ def run(ctx):
                 with ctx.guard(300):
                     driver_b(ctx, n, edges, bd, kind, spec, False, be, frame=((h, w) if rng.random() < 0.5 else None))
                 ctx.count("vg.big_boards_borders")
+    # Graph objects produced by Graph.line_graph() (dividing the EDGES of a graph into connected groups): all set partitions / all
+    # border patterns of small ones
+    for t in range(3 if not thorough else 40):
+        r = D.line_graph_object(rng, nmax=4)
+        if r is None:
+            ctx.count("vg.line_graph_object_disagrees")
+            continue
+        gobj, n, edges = r
+        if n > 5 or len(edges) > 8:
+            continue
+        with ctx.guard(600):
+            for part in G.set_partitions(list(range(n))):
+                block_of = [None] * n
+                for b, vs in enumerate(part):
+                    for v in vs:
+                        block_of[v] = b
+                bsz = [len(part[block_of[v]]) for v in range(n)]
+                specs = list(size_specs(rng, n, bsz))
+                for kind, spec in [specs[0], rng.choice(specs[1:])]:
+                    driver_a(ctx, n, edges, part, kind, spec, None, False, gobj=gobj)
+            pats = list(D.all_patterns(len(edges)))
+            for border in (pats if len(pats) <= 32 else rng.sample(pats, 32)):
+                bl = G.blocks_of_cut(n, edges, border)
+                cnt = {}
+                for v in range(n):
+                    cnt[bl[v]] = cnt.get(bl[v], 0) + 1
+                specs = list(size_specs(rng, n, [cnt[bl[v]] for v in range(n)]))
+                kind, spec = rng.choice(specs[:2])
+                driver_b(ctx, n, edges, border, kind, spec, False, be, gobj=gobj)
+        ctx.count("vg.line_graph_objects")
     ctx.sample({"driver": "A", "n": 3, "edges": [[0, 1], [1, 2]], "partition": [[0, 2], [1]], "definition": False})
     mwire.uninstall()
     msolve.uninstall()
